@@ -1,5 +1,8 @@
 //! WAL log file management.
 
+#[cfg(grafeo_verif)]
+use grafeo_common::verif::fake_std as std;
+
 use super::WalRecord;
 use grafeo_common::types::{EpochId, TxId};
 use grafeo_common::utils::error::{Error, Result};
@@ -143,6 +146,14 @@ impl WalManager {
     pub fn with_config(dir: impl AsRef<Path>, config: WalConfig) -> Result<Self> {
         let dir = dir.as_ref().to_path_buf();
         fs::create_dir_all(&dir)?;
+        #[cfg(grafeo_verif)]
+        let config = {
+            let mut config = config;
+            if let Some(v) = grafeo_common::verif::knob("wal.max_log_size") {
+                config.max_log_size = v;
+            }
+            config
+        };
 
         // Find the highest existing sequence number
         let mut max_sequence = 0u64;
